@@ -260,16 +260,8 @@ func (p *Program) inlinable(fs *FuncSrc) *inlineCand {
 			if !top {
 				ok = false
 			}
-			// every return must come after the defer, so that each of them runs it
-			ast.Inspect(fd.Body, func(m ast.Node) bool {
-				if _, isLit := m.(*ast.FuncLit); isLit {
-					return false
-				}
-				if r, isR := m.(*ast.ReturnStmt); isR && r.Pos() < x.Pos() {
-					ok = false
-				}
-				return true
-			})
+			// (a return that precedes the top-level defer does not run it, one that
+			// follows does: deferredAt)
 			for _, a := range x.Call.Args {
 				if !accessPath(a) {
 					ok = false // the argument would be evaluated at another time
@@ -944,9 +936,20 @@ func (p *Program) inlineAt(cs *CallSite, cand *inlineCand, tag string, read func
 		d := cand.defers[i]
 		deferred = append(deferred, bodyEdits(d.Call.Pos(), d.Call.End(), nil))
 	}
-	dtext := ""
+	dtextAll := ""
 	for _, d := range deferred {
-		dtext += strings.ReplaceAll(d, "\n", " ") + "; "
+		dtextAll += strings.ReplaceAll(d, "\n", " ") + "; "
+	}
+	// the deferred calls a return at pos runs: those of the (top-level) defer
+	// statements that precede it, last first
+	deferredAt := func(pos token.Pos) string {
+		out := ""
+		for i := len(cand.defers) - 1; i >= 0; i-- {
+			if cand.defers[i].Pos() < pos {
+				out += strings.ReplaceAll(deferred[len(cand.defers)-1-i], "\n", " ") + "; "
+			}
+		}
+		return out
 	}
 	extra := func(n ast.Node) (textEdit, bool, bool) {
 		switch x := n.(type) {
@@ -959,6 +962,7 @@ func (p *Program) inlineAt(cs *CallSite, cand *inlineCand, tag string, read func
 			if inLit(fd.Body, x) {
 				return textEdit{}, false, true
 			}
+			dtext := deferredAt(x.Pos())
 			if tail {
 				if len(x.Results) == 0 {
 					return textEdit{}, false, true // bare return with named results: not supported here
@@ -1072,8 +1076,8 @@ func (p *Program) inlineAt(cs *CallSite, cand *inlineCand, tag string, read func
 	if n := len(fd.Body.List); n > 0 {
 		_, endsWithReturn = fd.Body.List[n-1].(*ast.ReturnStmt)
 	}
-	if dtext != "" && !endsWithReturn {
-		body += "; " + dtext
+	if dtextAll != "" && !endsWithReturn {
+		body += "; " + dtextAll
 	}
 
 	deferred = nil
